@@ -143,6 +143,13 @@ func corpus() []Scenario {
 		r = append(r, Scenario{"corpus:result-and-close-ready", onePlan(3),
 			[]Decision{{T: "call", C: 0}, until("c0", "rpc.retry.select"), {T: "res", M: id, V: 783}, fin("n0"), {T: "fclose"}, step("x0"), fin("c0")}, uint64(i)})
 	}
+	// C26: a handler has claimed the call but not finished when the close branch of the retry loop polls
+	r = append(r, Scenario{"corpus:claimed-and-close-in-loop", onePlan(3),
+		[]Decision{{T: "call", C: 0}, until("c0", "rpc.retry.select"), {T: "res", M: id, V: 785}, until("n0", "rpc.handler.claimed"),
+			{T: "fclose"}, step("x0"), fin("c0"), fin("n0"), fin("c0")}, 1})
+	r = append(r, Scenario{"corpus:claimed-error-and-close-in-loop", onePlan(3),
+		[]Decision{{T: "call", C: 0}, until("c0", "rpc.retry.select"), {T: "err", M: id, Code: 501}, until("n0", "rpc.handler.claimed"),
+			{T: "fclose"}, step("x0"), fin("c0"), fin("n0"), fin("c0")}, 1})
 	// C26: ack delivered and engine force-closed before the select
 	for i := 0; i < 6; i++ {
 		r = append(r, Scenario{"corpus:ack-and-close-ready", onePlan(3),
